@@ -62,11 +62,15 @@ fn skel_into(node: &SyntaxNode, in_math: bool, sort_imports: bool, out: &mut Str
     if k == K::CodeBlock {
         if let Some(code) = node.children().find(|c| c.kind() == K::Code) {
             let exprs: Vec<&SyntaxNode> = code.children().filter(|c| c.is::<ast::Expr>()).collect();
-            if exprs.len() == 1 && !exprs[0].kind().is_stmt() && code.children().all(|c| c.kind() != K::Semicolon) {
+            if exprs.len() == 1 && !exprs[0].kind().is_stmt() {
                 skel_into(exprs[0], false, sort_imports, out);
                 return;
             }
         }
+    }
+    if node.children().len() == 0 && k == K::Markup {
+        out.push_str("(Markup)");
+        return;
     }
     if node.children().len() == 0 {
         out.push_str(&format!("{:?}", k));
@@ -243,14 +247,14 @@ fn is_punct(k: K) -> bool {
 
 fn is_word(n: &SyntaxNode) -> bool {
     let k = n.kind();
-    !(k.is_trivia() || is_punct(k)) && !n.text().is_empty()
+    !(k.is_trivia() || is_punct(k)) && !n.text().trim().is_empty()
 }
 
 // ---------------------------------------------------------------- comments (C06)
 
 fn norm_comment(text: &str) -> String {
     let t = text.replace("\r\n", "\n");
-    t.split('\n').map(|l| l.trim()).collect::<Vec<_>>().join("\n")
+    t.split('\n').map(|l| l.trim()).collect::<Vec<_>>().join("\n").trim().to_string()
 }
 
 fn word_edge(n: &SyntaxNode, last: bool) -> String {
